@@ -502,7 +502,7 @@ DevNeeds(x) ==
     [] x = "NullableObjectIsValueStruct" -> {"type"}
     [] x \in {"EnumNullDefault", "DefaultOnNullableScalar", "DefaultOnFormat", "DefaultOnWrappedEnum", "DefaultOnNestedArray",
               "DefaultOnObjectWithOptionalFields"} -> {"default"}
-    [] x = "AllOfFirstWins" -> {"allOf"}
+    [] x \in {"AllOfFirstWins", "SizedSharedNodeRevisited"} -> {"allOf"}
     [] x \in {"AnyOfMergedDecode", "AnyOfRefBranchWithoutValidators", "AnyOfUntypedBranchNoCompile"} -> {"anyOf"}
     [] x = "YamlIntInMixedEnum" -> {"enum"}
     [] OTHER -> {"type", "ref", "enum", "allOf", "anyOf"}          \* anything else: always a candidate
